@@ -538,5 +538,22 @@ EXHAUSTIVE = {"quick": "all 255 single-byte strings/keys; every pad length so th
                        "threshold fall on every second byte of a probe document",
               "thorough": "all 255 single-byte strings/keys; every pad length across 150 bytes around 16382*k (k=1..4) and 16000"}
 
-LEVEL_TEXT = "(set below)"
-LEVEL_NOTE = "(set below)"
+LEVEL_TEXT = ("Proved in Lean 4 for ALL Var trees (any depth/size; 32-bit ints; strings and keys = arbitrary NUL-free bytes incl. control "
+              "characters, quotes, backslashes, '/', 0x7f, high bytes), about the executable model of XdlEncoder/Xdl::write/Xdl::read "
+              "(lean/AslModel/Xdl.lean) and the decoder model of C06: encode_in_rfc / encode_is_json_text (compact and pretty JSON output is "
+              "derivable in the RFC 8259 grammar - written from the RFC as an inductive relation - and denotes the tree: the independent-parser "
+              "clause), string_escaping_exact, int_lexeme_exact (myitoa spells the int, INT_MIN included), json_roundtrip (decode(encode v) = the "
+              "normalised denotation, both layouts; corollary of encode_in_rfc + C06 rfc_accept), roundtrip_int / roundtrip_scalars / "
+              "roundtrip_object_members (what comes back), sink_concat / writer_refines (the 16000-byte flushing sink loses and duplicates nothing, "
+              "every mode incl. XDL), read_chunks (reading in 16382-byte chunks with BOM probe = decode of the content, any size), file_roundtrip. "
+              "Number formatting enters as the hypothesis H1 (snprintf %.Pg prints an RFC number lexeme); the driver's instance (Dtoa.fmtG) is "
+              "compared with glibc byte for byte on every run. The model is tied to the code by the correspondence check under ASan (encode bytes in "
+              "8 modes, decode∘encode, write/read through files slid across the 16382/16000 boundaries) and python3 json parses every JSON-mode output.")
+LEVEL_NOTE = ("Partial: bit-exact recovery of doubles/floats is H2 (atof(%.17g x) = x, glibc) - kept as `def double_roundtrip_full`, exercised by K "
+              "and the python oracle on every generated double/float (denormals, +-DBL_MAX, -0, powers of two +-1ulp, random bits), not proved. "
+              "XDL round trip (identifier keys, Y/N, class prefix, newline separators) is `def xdl_roundtrip_full`: validated by K + the python "
+              "expected-value oracle only (sink_concat and read_chunks do cover XDL). H1 is a hypothesis of the theorems, not proved for Dtoa.fmtG. "
+              "Fixed in /repo for this property: 737b5bf (raw control characters), 88049f3 ('/' in quoted keys), a755d42 (found by this check: "
+              "files of 1-2 bytes such as '5' or '[]' could not be read back), c9789c6 (C06: nesting limit). Not a defect as worded: -0.0 and "
+              "integral doubles are written without fraction ('-0', '5') and come back as ints of the same numeric value; ints of 10+ characters "
+              "come back as doubles of the same value.")
